@@ -396,6 +396,12 @@ def run(ctx: common.Ctx):
                             dict(base, exception=None, per_tx=(1, 4), special=['sec', 'sec', 'start', 'stop', 'junction'], sec_near_start=0.6, coding_only=True))
     judge(ctx, res, 'special-codons')
     stats4 = dict(ctx.coverage['worker_stats'])
+    # Met>Lys at an internal methionine that starts a tryptic product (…K|M…): the variant peptide is
+    # the reference product minus its first residue — not canonical (canonical set = Lean digest model)
+    res = cv_checks.explore(ctx, ctx.n(140, 2000),
+                            dict(base, exception=None, per_tx=(0, 2), max_size=4, as_frac=0.0, internal_met=1.0,
+                                 junction_mnv=0.0, coding_only=True, variations=[], stages=False, tvgbuild=False))
+    judge(ctx, res, 'internal-met-to-lys')
     # Sec termination inside the START node: Sec a few codons behind the ATG with no K / R in between, a
     # long in-frame 5'UTR run without K / R / stop in front of the ATG (the start codon lies in the
     # second half of its node), records between the ATG and the Sec, SECT on
